@@ -1,4 +1,5 @@
 SPECIFICATION Spec
+CONSTANT TraceFile = "traces.json"
 INVARIANT NoEvalUnlessAccepted
 INVARIANT DeadNeverEvaluated
 INVARIANT Report
